@@ -149,8 +149,8 @@ def c13_sweep(boot):
                 a, b = I.nf_of(x), I.nf_of(y)
                 ok = False
                 if a is not None and b is not None and tuple(x.dimension.exponents) == tuple(y.dimension.exponents):
-                    sa, sb = size(a), size(b)
-                    ok = sa is not None and sb is not None and abs(float(sa / sb) - 1.0) <= 1e-9
+                    q = size(M.u_div(a, b))
+                    ok = q is not None and abs(float(q) - 1.0) <= 1e-9
                 if ok:
                     counters["C13.sweep.equal-named-unit"] = counters.get("C13.sweep.equal-named-unit", 0) + 1
                 else:
